@@ -1,5 +1,5 @@
 CONSTANTS
-  Families = {"single", "noshellq", "order", "quirk", "shell", "streams"}
+  Families = {"single", "noshellq", "order", "quirk", "shell", "streams", "jobs"}
   MaxGrow = 0
 INIT Init
 NEXT Next
@@ -10,3 +10,7 @@ INVARIANT InvRequirementAloneIsNeutral
 INVARIANT InvNullAddsNothing
 INVARIANT InvSorted
 INVARIANT InvOwners
+INVARIANT InvStepWellFormed
+INVARIANT InvJobAlone
+INVARIANT InvJobsSorted
+INVARIANT InvRuntimeEnv
